@@ -1,17 +1,23 @@
 #!/bin/bash
-# seedtest.sh <patch> <ID> [tier] : apply a seeded defect to /repo, run one check, undo.
-# Never leaves /repo modified. Prints the check's verdict lines and exit code.
+# seedtest.sh <patch> <ID> [tier] : run one check against a seeded defect.
+# The patch is applied to a scratch worktree of /repo's HEAD (never to /repo itself, so that other
+# runs are not disturbed); run.sh builds against it through VERIF_REPO; evidence and replay files of
+# the run go to a scratch directory. Prints the verdict lines and the check's exit code.
 set -u
 PATCH=$(realpath "$1"); ID=$2; TIER=${3:-quick}
-cd /repo || exit 2
-if [ -n "$(git status --porcelain --untracked-files=no)" ]; then echo "repo not clean"; exit 2; fi
+SW=/tmp/seedrepo.$$
+git -C /repo worktree add --detach "$SW" HEAD >/dev/null 2>&1 || { echo "cannot create worktree"; exit 2; }
+trap 'git -C /repo worktree remove --force "$SW" >/dev/null 2>&1; rm -rf "/verif/.work/seed.$$"' EXIT
+cd "$SW" || exit 2
 if git apply --check "$PATCH" 2>/dev/null; then git apply "$PATCH"
-elif git apply -3 "$PATCH" >/dev/null 2>&1 && [ -z "$(git diff --name-only --diff-filter=U)" ]; then git reset -q; echo "SEEDTEST applied with 3-way merge"
-else git checkout -- . 2>/dev/null; git reset -q --hard HEAD; echo "SEEDTEST patch does not apply: $PATCH"; exit 3; fi
-trap 'git -C /repo checkout -- . ' EXIT
-cd /verif && ./run.sh "$ID" "$TIER" > .work/seedtest.$ID.out 2>&1
+elif git apply -3 "$PATCH" >/dev/null 2>&1 && [ -z "$(git diff --name-only --diff-filter=U)" ]; then git reset -q
+else echo "SEEDTEST patch does not apply: $PATCH"; exit 3; fi
+mkdir -p "/verif/.work/seed.$$"
+cd /verif && VERIF_REPO="$SW" VERIF_WORK_SUFFIX=".seed$$" VERIF_EVIDENCE_DIR="/verif/.work/seed.$$" VERIF_REPLAY_DIR="/verif/.work/seed.$$" ./run.sh "$ID" "$TIER" > "/verif/.work/seed.$$/out" 2>&1
 rc=$?
-grep -E '^(VIOLATION|INCONCLUSIVE|SUMMARY|KNOWN)' .work/seedtest.$ID.out | head -8
-grep -A1 '^VIOLATION' .work/seedtest.$ID.out | grep oracle | head -5
+grep -E '^(VIOLATION|INCONCLUSIVE|SUMMARY|KNOWN)' "/verif/.work/seed.$$/out" | head -6
+grep -A1 '^VIOLATION' "/verif/.work/seed.$$/out" | grep oracle | head -4
+rm -f /verif/.work/bin/kvcheck*seedrepo.$$ 2>/dev/null
+rm -rf "/verif/.work/$ID-$TIER.seed$$" "/verif/.work/C19-$TIER.seed$$.race" /verif/.work/mod/*seedrepo.$$* 2>/dev/null
 echo "SEEDTEST $ID $(basename $(dirname $PATCH))/$(basename $PATCH) exit=$rc"
 exit 0
